@@ -449,8 +449,17 @@ func (e *Engine) sweepUnits(sw Sweep) []sweepUnit {
 		if !pos.IsValid() || !files[filepath.Base(e.fset.Position(pos).Filename)] {
 			continue
 		}
-		if _, has := e.db.Funcs[e.fullKey(fn)]; has {
-			continue
+		if ct, has := e.db.Funcs[e.fullKey(fn)]; has {
+			// an explicit contract replaces the synthesised one only for the properties it is tagged with
+			covered := false
+			for _, p := range sw.Props {
+				if hasProp(ct.Props, p) {
+					covered = true
+				}
+			}
+			if covered {
+				continue
+			}
 		}
 		fns = append(fns, fn)
 	}
